@@ -90,10 +90,10 @@ Definition op_tokens (c : N) (acc : list token) : lexres :=
   | 130 => LexOk (TkSize :: acc)
   | 124 => LexOk (TkSwap :: acc)
   | 105 =>
-    (* OP_VERIFY directly after EQUAL / CHECKSIG / CHECKMULTISIG is refused; NUMEQUAL is NOT
-       in the list of the code (DESIGN 10-b) *)
+    (* OP_VERIFY directly after EQUAL / NUMEQUAL / CHECKSIG / CHECKMULTISIG is refused
+       (NUMEQUAL since /repo 22fc180a, DESIGN 10-b) *)
     match acc with
-    | TkEqual :: _ | TkCheckSig :: _ | TkCheckMultiSig :: _ => LexErr LeNonMinimalVerify
+    | TkEqual :: _ | TkNumEqual :: _ | TkCheckSig :: _ | TkCheckMultiSig :: _ => LexErr LeNonMinimalVerify
     | _ => LexOk (TkVerify :: acc)
     end
   | 166 => LexOk (TkRipemd160 :: acc)
